@@ -16,13 +16,14 @@ import real  # noqa: F401  (sets sys.path to the repo under test)
 from rbacx.policy import loader as rloader
 from rbacx.policy.loader import HotReloader
 
-OBLIGATION = ("C10_translated: Generated.Src.reloader_check / Src.reloader_register_error (the current source text of "
-              "HotReloader.check_and_reload_async / _register_error: fields as a record passed in and out, etag()/load()/set_policy outcomes, "
-              "the clock reading and the PRNG draw as parameters) = the model's check / registerError — result, new state, which of "
-              "etag()/load()/set_policy were called in which order — for every state, configuration, clock reading, jitter draw and "
-              "collaborator outcome; the C10 clauses re-derived for the translated source")
-DIFFERENTIAL = ("translated reloader methods evaluate like the real HotReloader.check_and_reload_async / _register_error (translator + "
-                "Model/PyReloader.lean vs CPython)")
+OBLIGATION = ("C10_translated: Generated.Src.reloader_check / Src.reloader_register_error / Src.reloader_init (the current source text of "
+              "HotReloader.check_and_reload_async / _register_error / the state-creating statements of __init__: fields as a record passed in "
+              "and out, etag()/load()/set_policy outcomes, the clock reading and the PRNG draw as parameters) = the model's check / registerError "
+              "/ init — result, new state, which of etag()/load()/set_policy were called in which order — for every state, configuration, clock "
+              "reading, jitter draw and collaborator outcome; histories of translated checks = the model's run; the C10 clauses re-derived for "
+              "the translated source")
+DIFFERENTIAL = ("translated reloader methods evaluate like the real HotReloader.check_and_reload_async / _register_error / __init__ (translator "
+                "+ Model/PyReloader.lean vs CPython)")
 
 
 def exc_class(name: str):
@@ -72,6 +73,18 @@ class AsyncScripted(Scripted):
 
     async def load(self):
         return self._answer("self.source.load", [])
+
+
+class NoEtag(Scripted):
+    """a source without a usable `etag` attribute: reading it raises AttributeError, so getattr(source, "etag", None) is None"""
+    etag = property()
+
+
+class NoneEtag(Scripted):
+    etag = None
+
+
+SOURCES = {"sync": Scripted, "async": AsyncScripted, "missing": NoEtag, "none": NoneEtag}
 
 
 class Reading:
@@ -130,6 +143,10 @@ def cases(seed: int) -> list[dict]:
               "last_error": r.choice([None, "ValueError"])}
         out.append({"m": "register_error", "cfg": cfg, "now": NOW + r.choice([0.0, 0.125, 7.5]), "u": u, "st": st, "err": cls,
                     "level": r.choice(["warning", "error"]), "msg": r.choice(["RBACX: x", "RBACX: policy not found: %s"])})
+    # the state-creating statements of __init__: initial_load × kind of the source's etag attribute × outcome of the sync call
+    for il, kind, eo, cfg in itertools.product([False, True], list(SOURCES), ETAGS, CFGS[:2]):
+        st = {"last_etag": "junk", "suppress_until": 5.0, "backoff": 3.5, "last_reload_at": 1.0, "last_error": "RuntimeError"}
+        out.append({"m": "init", "cfg": cfg, "now": NOW, "u": 0.0, "st": st, "initial_load": il, "source": kind, "etag": eo})
     return out
 
 
@@ -152,7 +169,13 @@ def translated_vs_python(run: lib.Run, tr: dict, sink: list) -> tuple[bool, str]
         j = {"m": c["m"], "cfg": [q(x) for x in c["cfg"]], "now": q(c["now"]), "u": q(c["u"]),
              "st": {"last_etag": proto.enc(c["st"]["last_etag"]), "suppress_until": q(c["st"]["suppress_until"]), "backoff": q(c["st"]["backoff"]),
                     "last_reload_at": None if c["st"]["last_reload_at"] is None else q(c["st"]["last_reload_at"]), "last_error": c["st"]["last_error"]}}
-        if c["m"] == "check":
+        if c["m"] == "init":
+            import inspect
+            attr = getattr(SOURCES[c["source"]]({}, []), "etag", None)
+            # the probe's value is an input of the translation: what the source's expression evaluates to for this source
+            j.update({"initial_load": c["initial_load"], "sync_etag": attr is not None and not inspect.iscoroutinefunction(attr),
+                      "etag": {"ok": proto.enc(c["etag"][1])} if c["etag"][0] == "ok" else {"raised": seen_as(exc_instance(c["etag"][1]))}})
+        elif c["m"] == "check":
             j["force"] = c["force"]
             for k in ("etag", "load", "set_policy"):
                 j[k] = {"ok": proto.enc(c[k][1])} if c[k][0] == "ok" else {"raised": seen_as(exc_instance(c[k][1]))}
@@ -168,8 +191,20 @@ def translated_vs_python(run: lib.Run, tr: dict, sink: list) -> tuple[bool, str]
     def observe(c: dict) -> dict:
         log: list = []
         outcomes = {"self.source.etag": c.get("etag"), "self.source.load": c.get("load"), "self.guard.set_policy": c.get("set_policy")}
+        if c["m"] == "init":
+            src = SOURCES[c["source"]](outcomes, log)
+            try:
+                rl = HotReloader(Scripted(outcomes, log), src, initial_load=c["initial_load"], backoff_min=c["cfg"][0], backoff_max=c["cfg"][1],
+                                 jitter_ratio=c["cfg"][2])
+                out = ["ret", None]
+            except Exception as e:  # noqa: BLE001
+                return {"st": {}, "calls": log, "out": ["raised", seen_as(e)], "reads": {"now": 0, "u": 0}}
+            return {"st": {"last_etag": rl._last_etag, "suppress_until": rl._suppress_until, "backoff": rl._backoff, "last_reload_at": rl._last_reload_at,
+                           "last_error": None if rl._last_error is None else seen_as(rl._last_error)},
+                    "calls": log, "out": out, "reads": {"now": 0, "u": 0}}
         collab = (AsyncScripted if c.get("async") else Scripted)(outcomes, log)
         rl = HotReloader(collab, collab, initial_load=True, backoff_min=c["cfg"][0], backoff_max=c["cfg"][1], jitter_ratio=c["cfg"][2])
+        del log[:]          # whatever the constructor did to the source is not part of the call under test
         rl._last_etag, rl._suppress_until, rl._backoff = c["st"]["last_etag"], c["st"]["suppress_until"], c["st"]["backoff"]
         rl._last_reload_at = c["st"]["last_reload_at"]
         rl._last_error = None if c["st"]["last_error"] is None else exc_instance(c["st"]["last_error"])
@@ -207,13 +242,15 @@ def translated_vs_python(run: lib.Run, tr: dict, sink: list) -> tuple[bool, str]
         if ok:
             gs, ws = got["st"], want["st"]
             le = proto.dec(gs["last_etag"])
-            ok = (le == ws["last_etag"] and type(le) is type(ws["last_etag"]) and gs["last_error"] == ws["last_error"]
+            ok = bool(ws) and (le == ws["last_etag"] and type(le) is type(ws["last_etag"]) and gs["last_error"] == ws["last_error"]
                   and all(same_num(ws[k], gs[k]) for k in nums)
                   and [[n, [proto.dec(a) for a in args]] for n, args in got["calls"]] == want["calls"]
                   and [got["out"][0], proto.dec(got["out"][1]) if got["out"][0] == "ret" else got["out"][1]] == want["out"]
                   and (c["m"] != "check" or all(want["reads"][k] <= n_read.get(k, 0) for k in want["reads"])))
         if ok:
             exact += all(exactly(ws[k], gs[k]) for k in nums)
+            if c["m"] == "init":
+                run.count(f"translated-reloader: __init__ initial_load={c['initial_load']} etag attribute {c['source']}: {len(want['calls'])} call(s)")
             if c["m"] == "check":
                 run.count("translated-reloader: " + ("forced " if c["force"] else "") + "+".join(n.split(".")[-1] for n, _ in want["calls"])
                           + " -> " + str(want["out"][1]))
